@@ -99,6 +99,7 @@ var snippets = []string{
 	"@skip", "@skip(if: 5)", "@include(if: \"x\")", "@unknown(x: 1)", "@skip(if: $nope)", "@skip(if: true) @skip(if: false)", "@include(if: null)",
 	"(x: 1, x: 2)", "(x: {a: 1})", "(x: [1, 2])", "(x: null)", "(x: RED)", "(x: 99999999999999999999)", "(x: 1.5e400)", "(x: \"\\u12\")", "(x: \"\\q\")", "(x: \"\"\"block\"\"\")", "(s: $v, n: $v)",
 	"__typename", "__schema { types { name } }", "__type(name: \"O1\") { name }", "id: id", "id: name", "a: allO1 { id } a: allO2 { id }",
+	"z: f1 { id } z: id", "z: id z: f1 { id }", "f1 { id } f1", "z: f2 { title } z: __typename",
 	"f0(x: [1, 2]) f0(x: [1, 2])", "z: id z: id", "z: f0(x: [1]) z: f0(x: [2])", "f0(x: $v) f0(x: $v)", "f0(x: {a: [1]}) f0(x: {a: [1]})", "f0(x: [[1], []]) ... on O1 { f0(x: [[1], []]) }",
 	"(x: [[\x16", "(x: [\x01])", "(x: [[", "(x: {a: [\x7f", "[", "]", "\x16", "\"unterminated", "(x: [\"\\q\"])",
 	"{", "}", "{}", "#comment\n", ",,,", "\ufeff", "\x00", "query", "mutation", "subscription", "fragment", "on",
@@ -776,7 +777,10 @@ var _ = sort.Strings
 
 // TestPinned: minimal inputs of the defects repaired in /repo.
 func TestPinned(t *testing.T) {
-	for _, text := range []string{"{ ... { id } }", "{ allO1 { ... @include(if: true) { id } } }", "{ ...on O1 { ... { id } } }"} {
+	// (the last two: one response key selected with and without sub-selections crashed the
+	// process in Flatten during execution; fixed in /repo, see known_findings.jsonl)
+	for _, text := range []string{"{ ... { id } }", "{ allO1 { ... @include(if: true) { id } } }", "{ ...on O1 { ... { id } } }",
+		"{ allO1 { z: f1 { id } z: id } }", "{ allO1 { z: id z: f1 { id } } }"} {
 		if _, _, err := pipeline(context.Background(), text, nil); err != nil {
 			rec.Violate("TestPinned-parse", map[string]interface{}{"query": text}, err.Error())
 			t.Errorf("%q: %v", text, err)
